@@ -123,7 +123,10 @@ class ServerBase(object):
             ctx.out_object = (None,)
 
         elif isinstance(ctx.out_object, Ignored):
-            ctx.out_object = ()
+            # wrapped method with more than one return value: every return
+            # value goes out as null. (not every protocol pads an empty tuple)
+            ctx.out_object = (None,) * \
+                                   len(ctx.descriptor.out_message._type_info)
 
     def convert_pull_to_push(self, ctx, gen):
         oobj, = ctx.out_object
